@@ -4,6 +4,6 @@ From Coq Require Extraction.
 From Coq Require Import NArith.
 From Coq Require Import Strings.Byte.
 From Muscle Require Import Common.LE Gen.Consts Gw.Tunnel Gw.MiniTunnel Gw.Packetized.
-Extraction "tunnel_model.ml" byte_of_N Byte.to_N clamp_mtu s_init sstep recv_packet
-                             mclamp_mtu m_init mstep mrecv_packet
+Extraction "tunnel_model.ml" byte_of_N Byte.to_N clamp_mtu s_init sstep recv_packet recv_loop
+                             mclamp_mtu m_init mstep mrecv_packet mrecv_loop
                              pw_init pw_flush pwrite pr_init pread.
